@@ -326,6 +326,8 @@ def positions(repo: Repo, rep, P: str):
                       f"{prel}:{bad.lineno}")
     else:
         rep.ok(f"{P}.R4", f"{prel}:Project.attach_module", f"{len(paths)} normal paths", "under loading=True the only list mutation is append")
+    from . import c14
+    c14.none_slot_first(repo, rep, P, "R4")
     # project-level SEND = empty position
     sv = repo.cls("SunVoxReader", module="rv.readers.sunvox")
     s = norm(repo.own_method(sv, "process_SEND"))
